@@ -26,7 +26,7 @@ DEFAULT_PROFILE = dict(
     subscript_whole_array_results=True, raise_=True, nested_calls=True,
     persistent_arrays=True, name_pool="plain", zero_trip=True, negative_consts=True,
     dead_code=True, cond_in_call_args=True, bare_power=True, ne_operator=True,
-    pow_of_pow=True, loop_bound_vars=True, fresh_names=False, lookups=False, complex_vars=False, assign_all_state=False, time_advance=True, force_phases=None, extra_kinds=(), zero_arg_calls=True, builtin_set=None, yield_uvec_only=False, matmul_only=False, yield_call_free=False, minmax_loop_counter=True, builtin_kwargs=True, uvfn_boost=False, kw_reverse=True, triangular=True, recall=True, int_reassign=True, acc_loops=True, guarded_partial=True, split_calls=True, dt_change=True,
+    pow_of_pow=True, loop_bound_vars=True, fresh_names=False, lookups=False, complex_vars=False, assign_all_state=False, time_advance=True, force_phases=None, extra_kinds=(), zero_arg_calls=True, builtin_set=None, yield_uvec_only=False, matmul_only=False, yield_call_free=False, minmax_loop_counter=True, builtin_kwargs=True, uvfn_boost=False, kw_reverse=True, triangular=True, recall=True, int_reassign=True, acc_loops=True, guarded_partial=True, split_calls=True, dt_change=True, surfaces=True,
     real_temps=None, uvec_temps=None, arr_temps=None, flag_temps=None, int_temps=None,
 )
 
@@ -1172,6 +1172,8 @@ def methods(draw, profile=None):
     g.phase_names = names
     # keyword arguments written in reverse name order (f(y=.., t=..)) in the whole method?
     kw_reverse = bool(p["kwargs"] and p["kw_reverse"] and draw(st.integers(0, 99)) < 35)
+    # how the builder is addressed: pymbolic objects, strings, three-argument if_ (see backends.emit_ops)
+    surface = draw(st.sampled_from(["expr", "expr", "expr", "str", "str", "if3", "if3str"])) if p["surfaces"] else "expr"
     # persistent variables, fixed up front
     state = {}
     pers = {}
@@ -1244,7 +1246,7 @@ def methods(draw, profile=None):
         nxt = draw(st.sampled_from(names))
         if p["force_phases"]:
             nxt = p["force_phases"][i][1]
-        phases.append({"name": name, "next": nxt, "body": body, "kw_reverse": kw_reverse})
+        phases.append({"name": name, "next": nxt, "body": body, "kw_reverse": kw_reverse, "surface": surface})
     if p["assign_all_state"]:
         # kind inference can only type a persistent variable that is assigned somewhere
         extra = []
@@ -1257,8 +1259,8 @@ def methods(draw, profile=None):
         phases[-1]["body"] = phases[-1]["body"] + extra
     return {"phases": phases, "initial": names[0], "state": state,
             "t0": draw(st.sampled_from([0, 0, 1, 0.5, -1, -0.5, -2])), "dt0": draw(st.sampled_from([1, 0.5, 0.25, 2])),
-            "ulen": g.ulen, "features": sorted(g.features | ({"kw_reverse"} if kw_reverse else set())),
-            "kw_reverse": kw_reverse}
+            "ulen": g.ulen, "features": sorted(g.features | ({"kw_reverse"} if kw_reverse else set()) | {"surface_" + surface}),
+            "kw_reverse": kw_reverse, "surface": surface}
 
 
 # ---------------------------------------------------------------- structure helpers
